@@ -85,9 +85,14 @@ async def scenario(net, hyg, plan):
     orig_acq, orig_rel = AC.acquire, AC.release
 
     def check_value(self, what):
+        # reads only; a counter that keeps its numbers under other names is simply not judged here (the monitor must
+        # never raise into the code it watches)
+        value, maximum = getattr(self, "value", None), getattr(self, "maximum_value", None)
+        if not isinstance(value, int) or not isinstance(maximum, int):
+            return
         mon["contract_calls"] += 1
-        if self.value is not None and not (0 <= self.value <= self.maximum_value):
-            viol.append({"key": f"counter-out-of-range:{what}", "msg": f"after {what}: value {self.value} max {self.maximum_value}"})
+        if not (0 <= value <= maximum):
+            viol.append({"key": f"counter-out-of-range:{what}", "msg": f"after {what}: value {value} max {maximum}"})
 
     def acq(self):
         try:
